@@ -66,7 +66,10 @@ def _replay_chunk(args):
             if obs['err'] is None and case['expect']['fullscan'] and not case['hasHdr']:
                 if (got[0] if got else []) != list(exp_rag):
                     sigs.append({'impl': 'py', 'what': 'field-count warning', 'got': got, 'want': exp_rag, 'query': qtext})
-        nontrivial = len(case['A']) >= 2 and (bool(case['expect']['out']) or bool(case['expect']['err']))
+        if opts.get('nontrivial_rule') == 'header':
+            nontrivial = bool(case['expect']['hashdr']) or bool(case['expect']['err'])
+        else:
+            nontrivial = len(case['A']) >= 2 and (bool(case['expect']['out']) or bool(case['expect']['err']))
         out.append((tid, key, sigs, trace_record(tid, case, obs), nontrivial, qtext))
     return out
 
